@@ -269,6 +269,60 @@ def fill_udp_checksum(frame):
   return bytes(b)
 
 
+def make_derived_valid(frame):
+  """The frame as a datapath that re-serialises what it dissected emits it: the IPv4 total length / IPv6 payload length
+  say what is there (a datagram cut short becomes a well-formed shorter one), the UDP length field says what the IP
+  datagram holds, and the IPv4 header, TCP, UDP and ICMP checksums (TCP / UDP also over IPv6) are right.  Meant for
+  packets that are regular but for such a derived field; anything it cannot read is left alone."""
+  f = bytes(frame)
+  off = 12
+  while len(f) >= off + 6 and f[off] == 0x81 and f[off + 1] == 0x00:
+    off += 4
+  if len(f) < off + 2:
+    return f
+  et = (f[off] << 8) | f[off + 1]
+  l3 = off + 2
+  b = bytearray(f)
+  rem = len(b) - l3
+  if et == 0x0800 and rem >= 20 and (b[l3] >> 4) == 4:
+    ihl = (b[l3] & 15) * 4
+    tl = (b[l3 + 2] << 8) | b[l3 + 3]
+    if ihl < 20 or ihl > rem or tl < ihl:
+      return f
+    if tl > rem:
+      tl = rem
+      b[l3 + 2:l3 + 4] = struct.pack("!H", tl)
+    b[l3 + 10] = b[l3 + 11] = 0
+    b[l3 + 10:l3 + 12] = struct.pack("!H", inet_checksum(bytes(b[l3:l3 + ihl])))
+    ff = (b[l3 + 6] << 8) | b[l3 + 7]
+    if ff & 0x3fff:
+      return bytes(b)
+    proto, l4, n = b[l3 + 9], l3 + ihl, tl - ihl
+    pseudo = lambda: bytes(b[l3 + 12:l3 + 20]) + struct.pack("!BBH", 0, proto, n)
+  elif et == 0x86dd and rem >= 40 and (b[l3] >> 4) == 6:
+    n = (b[l3 + 4] << 8) | b[l3 + 5]
+    if n > rem - 40:
+      n = rem - 40
+      b[l3 + 4:l3 + 6] = struct.pack("!H", n)
+    proto, l4 = b[l3 + 6], l3 + 40
+    pseudo = lambda: bytes(b[l3 + 8:l3 + 40]) + struct.pack("!LBBBB", n, 0, 0, 0, proto)
+  else:
+    return f
+  if proto == 17 and n >= 8:
+    b[l4 + 4:l4 + 6] = struct.pack("!H", n)
+    if b[l4 + 6] or b[l4 + 7] or et == 0x86dd:
+      b[l4 + 6] = b[l4 + 7] = 0
+      c = inet_checksum(pseudo() + bytes(b[l4:l4 + n])) or 0xffff
+      b[l4 + 6:l4 + 8] = struct.pack("!H", c)
+  elif proto == 6 and n >= 20:
+    b[l4 + 16] = b[l4 + 17] = 0
+    b[l4 + 16:l4 + 18] = struct.pack("!H", inet_checksum(pseudo() + bytes(b[l4:l4 + n])))
+  elif proto == 1 and et == 0x0800 and n >= 4:
+    b[l4 + 2] = b[l4 + 3] = 0
+    b[l4 + 2:l4 + 4] = struct.pack("!H", inet_checksum(bytes(b[l4:l4 + n])))
+  return bytes(b)
+
+
 # --------------------------------------------------------------------------- ports
 
 def may_transmit(port_state, p):
@@ -341,8 +395,14 @@ class Result(object):
     return out
 
 
+_NW_TP = ("set_nw_src", "set_nw_dst", "set_nw_tos", "set_tp_src", "set_tp_dst")
+
+
 def apply(frame, actions, in_port, port_state, udp_zero="keep", tos="dscp", from_flow=False, table=None,
-          _res=None):
+          _res=None, irregular=None):
+  """`irregular`: the frame's packet is not a well-formed one of its kind (name of the irregularity).  Link-layer
+  rewrites and outputs mean what they always mean; what an nw/tp rewrite does to such a packet (which lengths it trusts,
+  which checksums it repairs) is not specified: an open zone from that action on."""
   res = _res if _res is not None else Result()
   f = bytes(frame)
   for idx, act in enumerate(actions):
@@ -376,7 +436,8 @@ def apply(frame, actions, in_port, port_state, udp_zero="keep", tos="dscp", from
         if nested is None:
           res.events.append(("miss", f))
         else:
-          apply(f, nested, in_port, port_state, udp_zero=udp_zero, tos=tos, from_flow=True, table=None, _res=res)
+          apply(f, nested, in_port, port_state, udp_zero=udp_zero, tos=tos, from_flow=True, table=None, _res=res,
+                irregular=irregular)
         if res.ambiguous is None and idx + 1 < len(actions):
           # whether later actions of the outer list see the entry's rewrites is not specified
           res.ambiguous = "actions after an OFPP_TABLE output"
@@ -386,6 +447,9 @@ def apply(frame, actions, in_port, port_state, udp_zero="keep", tos="dscp", from
         res.ambiguous = x[1]
         break
     else:
+      if irregular is not None and a in _NW_TP and View(f).ipv4:
+        res.ambiguous = "%s on an irregular packet" % a
+        break
       f, amb, inapp = rewrite(f, act, udp_zero=udp_zero, tos=tos)
       if amb is not None:
         res.ambiguous = amb
